@@ -120,6 +120,16 @@ Theorem C03_regex_inverts_printer_predicate_except :
 Proof. exact index_predicate_printed. Qed.
 Print Assumptions C03_regex_inverts_printer_predicate_except.
 
+(** 2e'. the predicate [p] of 2e is arbitrary: it may itself contain the letters WHERE / where -- in a string
+    literal, in a column name, twice; the cut is taken at the first upper-case WHERE of the statement, which
+    is the keyword when nothing before it has those letters. *)
+Example C03_regex_inverts_printer_predicate_where_in_predicate :
+  index_predicate (B "CREATE INDEX `i` ON `t` (`a`) WHERE k <> 'NOWHERE'") = Some (B "k <> 'NOWHERE'") /\
+  index_predicate (B "CREATE INDEX `i` ON `t` (`whereabouts`) WHERE a = 'where' AND whereabouts > 0") = Some (B "a = 'where' AND whereabouts > 0") /\
+  index_predicate (B "CREATE INDEX `i` ON `t` (`a`) WHERE note <> 'a WHERE b' OR WHERE_y > 0") = Some (B "note <> 'a WHERE b' OR WHERE_y > 0") /\
+  occurs_cs K_WHERE (B "CREATE INDEX `i` ON `t` (`whereabouts`)") = false.
+Proof. vm_compute. repeat split; reflexivity. Qed.
+
 (** 3. The full statement "the recovery applied to the text the planner emits returns what was
     printed" is FALSE of inspect.go.  Each witness is a statement SQLite accepts and stores
     verbatim; each was reproduced on the real inspector (known findings of the same names).
